@@ -62,8 +62,18 @@ def run_route(route, d, n, kind, u, c, r):
     """-> (callable, expected_ok, expected_dimension, sources[list of (label, object)])"""
     from barril.units import FixedArray, ObtainQuantity, Scalar
 
-    vals = vals_for(r, n, kind)
-    v = cont(vals, kind)
+    if kind.startswith("rows"):
+        # a container of rows (points): what counts is the number of rows, whatever their width - also when the
+        # width happens to equal the dimension
+        if route == "FromScalars":
+            return None
+        w = max(1, r.choice([d, d, 2, 3]))
+        vals = [tuple(vals_for(r, w, "list")) for _ in range(n)]
+        v = list(vals) if kind == "rows-list" else tuple(vals)
+        kind = "list"
+    else:
+        vals = vals_for(r, n, kind)
+        v = cont(vals, kind)
     src = [("values", v)]
     q = ObtainQuantity(u, c)
     ok_dn = d >= 2 and n == d
@@ -136,7 +146,7 @@ def routes(ctx, r, n_cases):
         route = r.choice(ROUTES)
         d = r.choice([0, 1, 2, 2, 3, 3, 4, 5, 6])
         n = d if r.random() < 0.4 else r.randint(0, 7)
-        kind = r.choice(KINDS)
+        kind = r.choice(KINDS + ("rows-list", "rows-tuple"))
         u, c = r.choice(UC)
         try:
             built = run_route(route, d, n, kind, u, c, r)
